@@ -206,6 +206,34 @@ def restore_rng(saved) -> None:
         th.set_rng_state(saved[2])
 
 
+# F-11 repair: every environment runs __init__ / reset / step on its OWN saved state of the two process-wide generators (decorator
+# `own_generator_state`); the key of `self.__dict__` it is kept under is regenerated (Gen/OwnGeneratorState.stateKey) and compared with this
+# literal by c04.py's obligation "rig:own-state-key"
+OWN_STATE_KEY = "_generator_state"
+
+
+def _real_env(env):
+    """the environment object that carries the saved state (the multi-agent adapter of this rig wraps the real one)"""
+    return env.__dict__["env"] if isinstance(env, MarlAdapter) else env
+
+
+def env_rng(env):
+    """the generator state the environment's NEXT operation starts from: its own saved state (what an unseeded `reset()` continues);
+    on a tree without the repair: the process-wide state"""
+    s = save_rng()
+    own = getattr(_real_env(env), "__dict__", {}).get(OWN_STATE_KEY)
+    return (own[0], own[1], s[2]) if own is not None else s
+
+
+def hand_rng(env, saved) -> None:
+    """make `saved` the generator state the environment's next operation starts from (and the process-wide state, for a tree without the
+    repair)"""
+    restore_rng(saved)
+    d = getattr(_real_env(env), "__dict__", None)
+    if isinstance(d, dict) and OWN_STATE_KEY in d:
+        d[OWN_STATE_KEY] = (saved[0], saved[1])
+
+
 SEED_MAX = 2 ** 32 - 1     # the largest value numpy.random.seed accepts
 
 
@@ -271,7 +299,7 @@ def compare_after_history(cfg_or_path, history: List[Any], fresh_resets: int, la
     _apply_history(used, history)
     old_game = used.game
     unseeded = later[0][0] == "reset" and later[0][1] is None
-    saved = save_rng() if unseeded else None
+    saved = env_rng(used) if unseeded else None
     t_used = run_ops(used, later, Canon(), with_rng=True)
     after_used = save_rng()
     normalise_process_state()
@@ -279,7 +307,7 @@ def compare_after_history(cfg_or_path, history: List[Any], fresh_resets: int, la
     for k in range(fresh_resets):
         fresh.reset(seed=1000003 + k)
     if saved is not None:
-        restore_rng(saved)
+        hand_rng(fresh, saved)
     t_fresh = run_ops(fresh, later, Canon(), with_rng=True)
     out = {"diff": first_difference(t_used, t_fresh), "digest": digest(t_used), "t_used": t_used, "t_fresh": t_fresh}
     if keep:
@@ -374,7 +402,7 @@ def dirty_history(cfg_or_path, rng: Rng, n_dirty: int, n_later: int, dirty_episo
     for mi, seed in enumerate(seeds):
         later = [("reset", seed)] + [("step", a) for a in gen_actions(rng.fork(f"later{mi}"), n_later if mi == 0 else max(4, n_later // 2), space)
                                      + list(extra_later or []) + (list(extra_history or []) if mi + 1 < len(seeds) else [])]
-        saved = save_rng() if seed is None else None
+        saved = env_rng(used) if seed is None else None
         t_used = run_ops(used, later, Canon(), with_rng=True)
         after_used = save_rng()
         if fresh is not None:
@@ -387,7 +415,7 @@ def dirty_history(cfg_or_path, rng: Rng, n_dirty: int, n_later: int, dirty_episo
         for k in range(resets):     # same episode number as the used one (matters for scheduled scenarios)
             fresh.reset(seed=1000003 + k)
         if saved is not None:
-            restore_rng(saved)
+            hand_rng(fresh, saved)
         t_fresh = run_ops(fresh, later, Canon(), with_rng=True)
         res = {"seed": seed, "history": list(history), "fresh_resets": resets, "later": later, "diff": first_difference(t_used, t_fresh),
                "digest": digest(t_used)}
@@ -623,11 +651,24 @@ def run_schedule(cfg_a: Dict, cfg_b: Optional[Dict], schedule: List[Tuple], shie
                 elif op == "close":
                     envs[who].close()
                     del envs[who]
+                elif op == "draw":
+                    foreign_draws(ent[2])
             finally:
                 if ctx:
                     ctx.__exit__(None, None, None)
         else:
             if op == "construct":
+                if configured_seed(cfg_a) is None:
+                    # An environment built from a scenario WITHOUT `game.seed` starts from wherever the process-wide generators are - by
+                    # design (`constructProgNoSeed` is not `progOK`: `noSeed_not_ok`), and from then on it runs on its own state. What such
+                    # a construction may take from the process is that generator state and NOTHING else: both runs hand it the same one
+                    # (as the reference of an unseeded `reset()` is handed the used environment's state). Before the F-11 repair this was
+                    # hidden behind the open finding.
+                    import random
+
+                    import numpy as np
+                    random.seed(20240918)
+                    np.random.seed(20240918)
                 envs["A"] = scen.make_env(cfg_a)
                 if globals_fp is not None and own is not None:
                     own.append(json.dumps({**globals_fp(), "generators": rng_fp() if configured_seed(cfg_a) is not None else "-"}, sort_keys=True))
@@ -644,6 +685,20 @@ def run_schedule(cfg_a: Dict, cfg_b: Optional[Dict], schedule: List[Tuple], shie
 
 
 OTHERS = ("B", "C")
+
+
+def foreign_draws(k: int) -> None:
+    """another user of the process-wide generators (a training loop, a notebook cell, another library) between two operations of the
+    environments: `k` draws from Python's and numpy's generator; an even `k` also RE-SEEDS both"""
+    import random
+
+    import numpy as np
+    if k % 2 == 0:
+        random.seed(1000 + k)
+        np.random.seed(1000 + k)
+    for _ in range(k):
+        random.random()
+        np.random.randint(0, 65535)
 
 
 def schedule_well_formed(schedule: List[Tuple]) -> bool:
@@ -705,6 +760,10 @@ def gen_schedule(rng: Rng, n_a: int, space_a: int, space_b: int, b_first: bool, 
                 n = sorted(set(OTHERS) - alive)[0]
                 s.append((n, "construct"))
                 alive.add(n)
+            elif r in (4, 5):
+                # somebody else in the process uses (r = 5: also re-seeds) the process-wide generators; attributed to the instance `w` only so
+                # that the schedule stays a list of (who, op, arg)
+                s.append((w, "draw", 2 * rng.range(1, 4) + (r - 4) - 1))
             else:
                 s.append((w, "step", rng.below(max(1, space_b))))
         if i and rng.chance(1, 10):
@@ -717,6 +776,10 @@ def gen_schedule(rng: Rng, n_a: int, space_a: int, space_b: int, b_first: bool, 
 # VIOLATION. The merged known_findings.json (not editable from here) still lists F-10 as open with channel "nmne-class-attrs"; the channel is
 # therefore reported under a name that stale entry does not match.
 NMNE_CHANNEL = "nmne-class-attrs-written-again(F-10-regression)"
+# F-11 is REPAIRED as well (fix4-RNG: every environment runs its operations on its own saved generator state): a difference that disappears
+# when the process-wide generators are shielded is a regression and must be a VIOLATION; reported under a name the stale open entry
+# (channel "global-rng") of the merged known_findings.json does not match
+RNG_CHANNEL = "process-wide-generators-shared-again(F-11-regression)"
 # the process-wide output settings (`primaite.simulator.SIM_OUTPUT`, written by every `PrimaiteIO(...)`, i.e. by every environment's
 # construction): classified sink-only, so a trajectory difference that disappears when they are shielded is a VIOLATION
 SIMOUT_CHANNEL = "sim-output-settings"
@@ -738,7 +801,7 @@ def interleaving(cfg_a: Dict, cfg_b: Dict, schedule: List[Tuple], globals_fp: Op
     if diff is None:
         return res
     fixes = {}
-    singles = (("global-rng", (True, False, False)), (NMNE_CHANNEL, (False, True, False)), (SIMOUT_CHANNEL, (False, False, True)))
+    singles = ((RNG_CHANNEL, (True, False, False)), (NMNE_CHANNEL, (False, True, False)), (SIMOUT_CHANNEL, (False, False, True)))
     for name, sh in singles + (("both", (True, True, True)),):
         t = run_schedule(cfg_a, cfg_b, schedule, shield=sh)
         fixes[name] = first_difference(solo, t)
@@ -812,6 +875,10 @@ def model_lines(cfg_a: Dict, cfg_b: Dict, schedule: List[Tuple], ids: Dict[str, 
         cfg = cfg_a if who == 0 else cfg_b
         op = ent[1]
         if op == "close":
+            continue
+        if op == "draw":
+            lines.append(f"ev {who} foreign 0")
+            idx.append(-1)
             continue
         if op == "construct":
             gs = cfg.get("game", {}).get("seed")
